@@ -71,9 +71,11 @@ class NonlinearConstraintsConfig(ImmutableBaseModel):
             msg = "The non-linear constraint lower bounds are larger than the upper bounds."
             raise ValueError(msg)
 
-        self._mutable()
-        self.lower_bounds = immutable_array(lower_bounds)
-        self.upper_bounds = immutable_array(upper_bounds)
-        self._immutable()
+        # An object that was validated before is not modified, but copied:
+        config = self.model_copy() if getattr(self, "_is_immutable", False) else self
+        config._mutable()
+        config.lower_bounds = immutable_array(lower_bounds)
+        config.upper_bounds = immutable_array(upper_bounds)
+        config._immutable()
 
-        return self
+        return config
